@@ -25,7 +25,7 @@ Proof.
 Qed.
 
 Section WithNodes.
-Variable nodes : list (nat * nat).
+Variable nodes : cfg0.
 Local Notation SAFEm := (SAFEm nodes).
 Local Notation SAFE := (SAFE nodes).
 
@@ -336,10 +336,11 @@ Definition between {R} t (cont : TL -> prog R) : Prop :=
   forall s' lv1, tlk t (vser (fst lv1)) s' -> vst (fst lv1) = @Idle SetSpec -> xwatch (snd lv1) = None -> SAFEm t (cont s') lv1.
 
 Lemma T_finish {R} t sn s o ra b (cont : TL -> prog R) lv :
+  cok (fst (op_code o)) = true ->
   tlk t sn s -> vser (fst lv) = sn -> vst (fst lv) = @Linearized SetSpec o (RBool (ra =? 1)) -> xwatch (snd lv) = None -> between t cont ->
   SAFEm t (finish s ra b cont) lv.
 Proof.
-  intros Ht Hser Hst Hw Hc. unfold finish. eapply Sm_emit_res; eauto. apply Hc; [cbn; rewrite Hser; exact Ht|reflexivity|reflexivity].
+  intros Hco Ht Hser Hst Hw Hc. unfold finish. eapply Sm_emit_res; eauto. apply Hc; [cbn; rewrite Hser; exact Ht|reflexivity|reflexivity].
 Qed.
 
 Lemma T_out_of_fuel {R} t sn s (cont : TL -> prog R) lv :
